@@ -49,6 +49,7 @@ func checkC10(ctx *Ctx, r *Report) {
 	c10FifthHunt(ctx, r)
 	c10SixthHunt(ctx, r)
 	c10SeventhHunt(ctx, r)
+	c10EighthHunt(ctx, r)
 }
 
 func c10DefaultCarried(ctx *Ctx, r *Report) map[*types.Func]bool {
@@ -2314,4 +2315,78 @@ func c10SeventhHunt(ctx *Ctx, r *Report) {
 	}
 	r.Count("hunted clauses of the default rules (7th hunt)", n)
 	r.Floor("hunted clauses of the default rules (7th hunt)", 4)
+}
+
+// c10EighthHunt — leads of the sixth hunt (Go defaults the scalar formatter can not write):
+//   - the items of a default list are written by the function that formats the default of a field of the item type
+//     (date-time items are time values, not strings);
+//   - a bytes field is declared `[]byte`, optional or not: its default — base64 text in the schema — has a case of its
+//     own in formatDefaultValue, and maybeValueAsPointer leaves bytes alone.
+func c10EighthHunt(ctx *Ctx, r *Report) {
+	n := 0
+	fn := ctx.LookupMethod("internal/jennies/golang", "RawTypes", "formatDefaultValue")
+	fd, p := ctx.DeclOf(fn)
+	if fd == nil {
+		r.Undecided("anchor lost: golang.RawTypes.formatDefaultValue")
+		return
+	}
+	info := p.TypesInfo
+	itemsThroughSelf, itemsThroughScalar := false, false
+	ast.Inspect(fd.Body, func(m ast.Node) bool {
+		rs, ok := m.(*ast.RangeStmt)
+		if !ok || exprString(rs.X) != "items" {
+			return true
+		}
+		ast.Inspect(rs.Body, func(q ast.Node) bool {
+			if c, ok := q.(*ast.CallExpr); ok {
+				if f := callee(info, c); f == fn {
+					itemsThroughSelf = true
+				} else if f != nil && f.Name() == "formatScalar" {
+					itemsThroughScalar = true
+				}
+			}
+			return true
+		})
+		return true
+	})
+	// the older form: tools.Map(items, formatScalar)
+	ast.Inspect(fd.Body, func(m ast.Node) bool {
+		if c, ok := m.(*ast.CallExpr); ok && len(c.Args) == 2 && exprString(c.Args[0]) == "items" {
+			if id, ok := ast.Unparen(c.Args[1]).(*ast.Ident); ok {
+				if f, ok := info.Uses[id].(*types.Func); ok && f.Name() == "formatScalar" {
+					itemsThroughScalar = true
+				}
+			}
+		}
+		return true
+	})
+	n++
+	r.Check(itemsThroughSelf && !itemsThroughScalar, "kinds/go-list-item-defaults-typed", "golang.formatDefaultValue writes the items of a default list", fd.Pos(), "through the function that formats a default of the item type",
+		"the items of a default list are written with the scalar formatter: `stamps: [date-time], default: [\"2020-01-02T03:04:05Z\"]` gives `[]time.Time{\"2020-01-02T03:04:05Z\"}` — cannot use a string as time.Time value, the package does not compile while Python yields the default")
+	bytesCase := false
+	ast.Inspect(fd.Body, func(m ast.Node) bool {
+		if is, ok := m.(*ast.IfStmt); ok && strings.Contains(exprString(is.Cond), "KindBytes") && endsInExit(is.Body) {
+			bytesCase = true
+		}
+		return true
+	})
+	n++
+	r.Check(bytesCase, "kinds/go-bytes-default-decoded", "golang.formatDefaultValue writes the default of a bytes field", fd.Pos(), "a case of its own (the schema gives base64 text)",
+		"the default of `{type: string, format: byte, default: \"aGVsbG8=\"}` is written as a string literal into a []byte field: cannot use \"aGVsbG8=\" (untyped string constant) as []byte value — the package does not compile")
+	if pfd, _ := ctx.DeclOf(ctx.LookupMethod("internal/jennies/golang", "RawTypes", "maybeValueAsPointer")); pfd == nil {
+		r.Undecided("anchor lost: golang.RawTypes.maybeValueAsPointer")
+	} else {
+		spared := false
+		ast.Inspect(pfd.Body, func(m ast.Node) bool {
+			if is, ok := m.(*ast.IfStmt); ok && strings.Contains(exprString(is.Cond), "KindBytes") && endsInExit(is.Body) {
+				spared = true
+			}
+			return true
+		})
+		n++
+		r.Check(spared, "kinds/go-bytes-default-decoded", "golang.maybeValueAsPointer wraps the default of an optional field", pfd.Pos(), "bytes are left alone (declared as a slice, optional or not)",
+			"maybeValueAsPointer wraps every optional scalar default in a pointer, bytes included, while the type formatter declares an optional bytes field `[]byte`: cannot use (value of type *[]byte) as []byte value in struct literal")
+	}
+	r.Count("hunted clauses of the default rules (8th hunt)", n)
+	r.Floor("hunted clauses of the default rules (8th hunt)", 3)
 }
